@@ -6,6 +6,7 @@ import (
 	"encoding/xml"
 	"fmt"
 	"math/rand/v2"
+	"net/http/httptest"
 	"reflect"
 	"runtime"
 	"strings"
@@ -203,6 +204,59 @@ func buildC17Fixture(r *rand.Rand, now time.Time, kc KeyCfg) *c17Fixture {
 		}
 		return "url-ok"
 	})
+	add("BuildAuthURL", true, func(sp *saml2.SAMLServiceProvider) string {
+		out, err := sp.BuildAuthURL("rs")
+		if err != nil {
+			return "error:" + err.Error()
+		}
+		ksp := &KeyedSP{Certs: map[string]*sim.Cert{"w": wantCert}, WantSign: "w"}
+		k, m, infl := checkRedirectURL(out, sp.IdentityProviderSSOURL, "rs", "", false, ksp, hash)
+		if k != "" {
+			return "bad-url:" + k + ":" + m
+		}
+		return verify(infl, nil) // the embedded document carries an enveloped signature
+	})
+	add("AuthRedirect", true, func(sp *saml2.SAMLServiceProvider) string {
+		rec := httptest.NewRecorder()
+		if err := sp.AuthRedirect(rec, httptest.NewRequest("GET", "https://sp.example.test/login", nil), "rs"); err != nil {
+			return "error:" + err.Error()
+		}
+		ksp := &KeyedSP{Certs: map[string]*sim.Cert{"w": wantCert}, WantSign: "w"}
+		k, m, infl := checkRedirectURL(rec.Header().Get("Location"), sp.IdentityProviderSSOURL, "rs", "", false, ksp, hash)
+		if k != "" || rec.Code != 302 {
+			return fmt.Sprintf("bad-redirect:%d:%s:%s", rec.Code, k, m)
+		}
+		return verify(infl, nil)
+	})
+	add("LogoutPostBodies", true, func(sp *saml2.SAMLServiceProvider) string {
+		d1, err := sp.BuildLogoutRequestDocument("user", "_s")
+		if err != nil {
+			return "error"
+		}
+		b1, err := sp.BuildLogoutBodyPostFromDocument("r<>\"", d1)
+		if err != nil {
+			return "error"
+		}
+		d2, err := sp.BuildLogoutResponseDocument(sim.StatusSuccess, "_r")
+		if err != nil {
+			return "error"
+		}
+		b2, err := sp.BuildLogoutResponseBodyPostFromDocument("", d2)
+		if err != nil {
+			return "error"
+		}
+		t1, e1 := tokenize(b1)
+		t2, e2 := tokenize(b2)
+		if e1 != nil || e2 != nil || len(t1) != 8 || len(t2) != 12 {
+			return fmt.Sprintf("bad-pages:%d:%d", len(t1), len(t2))
+		}
+		return "pages-ok"
+	})
+	add("GetCertBytes", false, func(sp *saml2.SAMLServiceProvider) string {
+		a, e1 := sp.GetSigningCertBytes()
+		b, e2 := sp.GetEncryptionCertBytes()
+		return fmt.Sprintf("%x/%v/%x/%v", mon.Hash64(string(a)), e1 != nil, mon.Hash64(string(b)), e2 != nil)
+	})
 	add("SigningContext", true, func(sp *saml2.SAMLServiceProvider) string {
 		ctx := sp.SigningContext()
 		if ctx == nil {
@@ -271,6 +325,13 @@ func buildC17Fixture(r *rand.Rand, now time.Time, kc KeyCfg) *c17Fixture {
 			continue
 		}
 		enc := sim.Encode(lc.Doc, sim.RawLevel)
+		add(fmt.Sprintf("DecodeUnverifiedLogoutResponse#%d", i), false, func(sp *saml2.SAMLServiceProvider) string {
+			p, err := saml2.DecodeUnverifiedLogoutResponse(enc)
+			if err != nil {
+				return "err"
+			}
+			return p.ID + "|" + p.InResponseTo
+		})
 		add(fmt.Sprintf("ValidateLogout#%d", i), false, func(sp *saml2.SAMLServiceProvider) string {
 			g, err := callLogout(sp, isResp, enc)
 			if err != nil {
